@@ -303,6 +303,19 @@ func makeClosureOf(fn *ssa.Function) *ssa.MakeClosure {
 	return nil
 }
 
+// curBind: while a rule inspects a statement instance of a shared private helper, the helper's parameters stand
+// for the arguments of that instance's call site (set by withBind; rules run sequentially).
+var curBind map[*ssa.Parameter]ssa.Value
+
+func withBind(s *Stmt, f func()) {
+	old := curBind
+	if s != nil && s.Via != nil {
+		curBind = s.bind
+	}
+	defer func() { curBind = old }()
+	f()
+}
+
 // valKey is a canonical textual identity for "the same value": parameters and
 // field paths are named, loads are looked through (a cell that is stored once
 // is replaced by the stored value), calls are identified by their instruction.
@@ -320,6 +333,9 @@ func valKeyD(v ssa.Value, d int) string {
 	v = strip(v)
 	switch x := v.(type) {
 	case *ssa.Parameter:
+		if b, ok := curBind[x]; ok {
+			return valKeyD(b, d+1)
+		}
 		return "param:" + x.Parent().Name() + "." + x.Name()
 	case *ssa.Const:
 		if x.Value == nil {
@@ -404,6 +420,10 @@ func sources(v ssa.Value) map[string]bool {
 		seen[v] = true
 		switch x := v.(type) {
 		case *ssa.Parameter:
+			if b, ok := curBind[x]; ok {
+				walk(b, d+1)
+				return
+			}
 			out["param:"+x.Name()] = true
 			return
 		case *ssa.Const:
@@ -488,6 +508,12 @@ func sources(v ssa.Value) map[string]bool {
 func resolve(v ssa.Value) ssa.Value {
 	for i := 0; i < 20; i++ {
 		v = strip(v)
+		if p, isP := v.(*ssa.Parameter); isP {
+			if b, ok := curBind[p]; ok {
+				v = b
+				continue
+			}
+		}
 		u, ok := v.(*ssa.UnOp)
 		if !ok || u.Op != token.MUL {
 			return v
